@@ -163,6 +163,10 @@ KindSeq == <<
   [n |-> "Sfic", t |-> St(<<Sc("float"), Sc("int"), Sc("char")>>)],
   [n |-> "Sc17", t |-> St(<<Ar(Sc("char"), 17)>>)],
   [n |-> "Sddd", t |-> St(<<Sc("double"), Sc("double"), Sc("double")>>)],
+  \* MEMORY class by size and 16-byte aligned (no register deviation possible; exercises the 16-alignment
+  \* of memory arguments and of va_arg's overflow cursor)
+  [n |-> "See",  t |-> St(<<Sc("ldouble"), Sc("ldouble")>>)],
+  [n |-> "Sel",  t |-> St(<<Sc("ldouble"), Sc("long")>>)],
   \* return-only kinds
   [n |-> "v",    t |-> Sc("void")],
   [n |-> "b",    t |-> Sc("bool")],
@@ -174,7 +178,7 @@ KindSeq == <<
 RetOnly == {"v", "b", "c", "uc", "s", "us"}
 AllNames == {KindSeq[i].n : i \in DOMAIN KindSeq}
 ST(nm) == KindSeq[CHOOSE i \in DOMAIN KindSeq : KindSeq[i].n = nm].t
-Feature(T) == IF IsAgg(T) /\ HasLd(T) THEN "x87agg"
+Feature(T) == IF IsAgg(T) /\ HasLd(T) /\ SizeOf(T) <= 16 THEN "x87agg"
               ELSE IF T.k = "ldouble" THEN "ldouble"
               ELSE IF IsAgg(T) THEN (IF SizeOf(T) <= 8 THEN "agg<=8" ELSE IF SizeOf(T) <= 16 THEN "agg<=16" ELSE "agg>16")
               ELSE IF T.k \in FltKinds THEN "sse" ELSE "int"
@@ -382,36 +386,35 @@ VARIABLES
   cl, pp, ce, sp,  \* Level I: push_args, pop loop, assign_lvar_offsets, spill loop
   vw,              \* Level I: va_area is_flonum counters
   va, vi, vf,      \* va_list walkers: psABI, stdarg.h, a foreign (psABI) walker handed chibicc's va_list
+  cj, ej, fj,      \* is the caller side / the callee side / a forwarded va_list still judged on this behaviour?
+                   \* (FALSE after a disagreement of that side: the other side is explored further on its own)
+  adis,            \* all disagreement classes so far                 (history)
   dis,             \* disagreement classes of the last transition
   fdis,            \* ... of a foreign walker on chibicc's va_list (va_list passed to other code)
   last             \* the decisions of the last transition (for counterexamples)
 TY(nm) == ki[nm]
-vars == <<ki, ri, ret, var, phase, args, nfix, locs, a, cl, pp, ce, sp, vw, va, vi, vf, dis, fdis, last>>
+vars == <<ki, ri, ret, var, phase, args, nfix, locs, a, cl, pp, ce, sp, vw, va, vi, vf, cj, ej, fj, adis, dis, fdis, last>>
 (* the allocator graph: counters saturate where the code only compares them against GP_MAX / FP_MAX,
    byte counts matter modulo 16 *)
 NV(v) == <<v.gp, v.fp, Up(v.ovf, 8) % 16, v.okc, v.oko>>
-GraphView == <<ret, var, phase, a.gp, a.sse, a.stk % 16,
-               Min2(cl.gp, GP_MAX), Min2(cl.fp, FP_MAX), cl.stack % 2, pp,
-               IF phase = "named" THEN <<Min2(ce.gp, GP_MAX), Min2(ce.fp, FP_MAX), Up(ce.top, 8) % 16, sp>> ELSE <<>>,
-               IF var /\ phase = "named" THEN <<vw.gp = sp.gp, vw.fp = sp.fp>> ELSE <<>>,
-               IF phase = "dots" THEN <<NV(va), NV(vi), NV(vf)>> ELSE <<>>, dis, fdis>>
-SigView == <<ret, var, phase, args, nfix, dis, fdis>>
+GraphView == <<ret, var, phase, a.gp, a.sse, a.stk % 16, cj, ej, fj,
+               IF cj THEN <<Min2(cl.gp, GP_MAX), Min2(cl.fp, FP_MAX), cl.stack % 2, pp>> ELSE <<>>,
+               IF ej /\ phase = "named" THEN <<Min2(ce.gp, GP_MAX), Min2(ce.fp, FP_MAX), Up(ce.top, 8) % 16, sp>> ELSE <<>>,
+               IF ej /\ var /\ phase = "named" THEN <<vw.gp = sp.gp, vw.fp = sp.fp>> ELSE <<>>,
+               IF phase = "dots" THEN <<NV(va), IF ej THEN NV(vi) ELSE <<>>, IF ej /\ fj THEN NV(vf) ELSE <<>>>> ELSE <<>>,
+               (dis \cup fdis) \subseteq Waived>>
+SigView == <<ret, var, phase, args, nfix, cj, ej, fj, dis, fdis>>
 
-(* disagreements of a named-parameter transition *)
-ParamDis(T, A, C, P, E, S) ==
-  LET f == T.feat
-      cls(x) == IF A.mem /\ T.align = 16 /\ f # "x87agg" THEN x \o ":align16" ELSE x \o ":" \o f IN
-     (IF C.mem # (P = <<>>) THEN {cls("caller-push-vs-pop")} ELSE {})
-  \cup (IF C.mem # E.mem \/ (C.mem /\ C.off # E.off) THEN {cls("caller-vs-callee-homes")} ELSE {})
-  \cup (IF ~E.mem /\ ~C.mem /\ P # S THEN {cls("caller-vs-callee-spill")} ELSE {})
-  \cup (IF A.mem # C.mem \/ (A.mem /\ A.off # C.off) \/ (~A.mem /\ ~C.mem /\ A.regs # P) THEN {cls("caller-vs-psabi")} ELSE {})
-  \cup (IF A.mem # E.mem \/ (A.mem /\ A.off # E.off) \/ (~A.mem /\ ~E.mem /\ A.regs # S) THEN {cls("callee-vs-psabi")} ELSE {})
-(* caller side of a variadic argument (no parameter on the other side) *)
+(* disagreements of a named-parameter transition, by the side that deviates *)
+Cls(T, A, x) == IF A.mem /\ T.align = 16 /\ T.feat # "x87agg" THEN x \o ":align16" ELSE x \o ":" \o T.feat
 CallerDis(T, A, C, P) ==
-  LET f == T.feat
-      cls(x) == IF A.mem /\ T.align = 16 /\ f # "x87agg" THEN x \o ":align16" ELSE x \o ":" \o f IN
-     (IF C.mem # (P = <<>>) THEN {cls("caller-push-vs-pop")} ELSE {})
-  \cup (IF A.mem # C.mem \/ (A.mem /\ A.off # C.off) \/ (~A.mem /\ ~C.mem /\ A.regs # P) THEN {cls("caller-vs-psabi")} ELSE {})
+     (IF C.mem # (P = <<>>) THEN {Cls(T, A, "caller-push-vs-pop")} ELSE {})
+  \cup (IF A.mem # C.mem \/ (A.mem /\ A.off # C.off) \/ (~A.mem /\ ~C.mem /\ A.regs # P) THEN {Cls(T, A, "caller-vs-psabi")} ELSE {})
+CalleeDis(T, A, E, S) ==
+  IF A.mem # E.mem \/ (A.mem /\ A.off # E.off) \/ (~A.mem /\ ~E.mem /\ A.regs # S) THEN {Cls(T, A, "callee-vs-psabi")} ELSE {}
+CrossDis(T, A, C, P, E, S) ==
+     (IF C.mem # E.mem \/ (C.mem /\ C.off # E.off) THEN {Cls(T, A, "caller-vs-callee-homes")} ELSE {})
+  \cup (IF ~E.mem /\ ~C.mem /\ P # S THEN {Cls(T, A, "caller-vs-callee-spill")} ELSE {})
 (* where a walker's source really comes from, as a Level A location *)
 SrcLoc(src, saveReg(_)) == IF src.mem THEN [mem |-> TRUE, regs |-> <<>>, off |-> src.off]
                            ELSE [mem |-> FALSE, regs |-> [j \in DOMAIN src.slots |-> saveReg(src.slots[j])], off |-> 0]
@@ -449,70 +452,96 @@ Init ==
   /\ sp = [gp |-> B(HiddenI(TY(ret))), fp |-> 0]
   /\ vw = [gp |-> B(HiddenI(TY(ret))), fp |-> 0]
   /\ va = ZV /\ vi = ZV /\ vf = ZV
+  /\ cj = TRUE /\ ej = TRUE /\ fj = TRUE /\ adis = {}
   /\ dis = {} /\ fdis = {} /\ last = <<>>
 
-EmitB(k, nf, A, a2, d2, fd2) ==
+EmitB(k, nf, A, a2, d2, fd2, flags, probe) ==
   IF Emit
   THEN CSVWrite("%1$s", <<ToJson([ret |-> ret, var |-> var, nfix |-> nf,
                                    args |-> Append(args, k), locs |-> Append(locs, A),
                                    gp |-> a2.gp, sse |-> a2.sse, stk |-> a2.stk, al |-> a2.sse,
                                    from |-> [gp |-> a.gp, sse |-> a.sse, par |-> (a.stk \div 8) % 2],
-                                   dis |-> d2, fdis |-> fd2, rloc |-> ri[ret].rloc, rdis |-> ri[ret].rdis,
+                                   dis |-> d2, fdis |-> fd2, adis |-> adis \cup d2 \cup fd2,
+                                   cj |-> flags[1], ej |-> flags[2], fj |-> flags[3], probe |-> probe, rloc |-> ri[ret].rloc, rdis |-> ri[ret].rdis,
                                    hidden |-> ri[ret].hidden])>>, IOEnv.OUT)
   ELSE TRUE
 
-(* one more named parameter *)
+(* one more named parameter.  A side that has already deviated on this behaviour is no longer evaluated
+   (its counters are meaningless); the other side goes on and is judged on its own (gcc on the deviating side) *)
+NoC == [mem |-> FALSE, off |-> 0]
 PassNamed(k) ==
   LET T == TY(k)
       A == APass(T, a)
-      C == CallerDecide(T, cl)
-      P == PopRegs(T, pp)
-      E == CalleeOff(T, ce)
-      S == IF E.mem THEN <<>> ELSE SpillRegs(T, sp)
-      d == ParamDis(T, A.loc, C, P, E, S)
-  IN /\ phase = "named" /\ dis = {} /\ Len(args) < MaxLen /\ k \in ParamKinds
+      C == IF cj THEN CallerDecide(T, cl) ELSE [mem |-> FALSE, off |-> 0, c |-> cl]
+      P == IF cj THEN PopRegs(T, pp) ELSE <<>>
+      E == IF ej THEN CalleeOff(T, ce) ELSE [mem |-> FALSE, off |-> 0, c |-> ce]
+      S == IF ej /\ ~E.mem THEN SpillRegs(T, sp) ELSE <<>>
+      dC == IF cj THEN CallerDis(T, A.loc, C, P) ELSE {}
+      dE == IF ej THEN CalleeDis(T, A.loc, E, S) ELSE {}
+      dX == IF cj /\ ej THEN CrossDis(T, A.loc, C, P, E, S) ELSE {}
+      d  == dC \cup dE \cup dX
+  IN /\ phase = "named" /\ (cj \/ ej) /\ Len(args) < MaxLen /\ k \in ParamKinds
      /\ args' = Append(args, k) /\ nfix' = nfix + 1 /\ locs' = Append(locs, A.loc)
      /\ a' = A.a /\ cl' = C.c /\ pp' = Bump(pp, P) /\ ce' = E.c /\ sp' = Bump(sp, S) /\ vw' = VaCount(T, vw)
-     /\ dis' = d /\ fdis' = {}
+     /\ cj' = (cj /\ dC = {}) /\ ej' = (ej /\ dE = {}) /\ fj' = fj
+     /\ dis' = d /\ fdis' = {} /\ adis' = adis \cup d
      /\ last' = [k |-> k, A |-> A.loc, caller |-> [mem |-> C.mem, off |-> C.off], pop |-> P,
                  callee |-> [mem |-> E.mem, off |-> E.off], spill |-> S]
      /\ UNCHANGED <<ki, ri, ret, var, phase, va, vi, vf>>
-     /\ EmitB(k, nfix + 1, A.loc, A.a, d, {})
+     /\ EmitB(k, nfix + 1, A.loc, A.a, d, {}, <<cj /\ dC = {}, ej /\ dE = {}, fj>>, FALSE)
 
-(* one more variadic argument; the first one also runs va_start *)
+(* one more variadic argument; the first one also runs va_start.  `probe`: would a further 24-byte
+   struct (always fetched from the overflow area, 8-aligned) be passed and fetched without disagreement?
+   The generator then also emits the behaviour extended by that argument, so that the overflow cursor
+   left behind by *every* kind of fetch is observed (BFS alone reaches the successor state by some
+   other, shorter history). *)
+ProbeKind == "S24"
 PassDots(k) ==
   LET T == TY(k)
       first == phase = "named"
       A  == APass(T, a)
-      C  == CallerDecide(T, cl)
-      P  == PopRegs(T, pp)
+      C  == IF cj THEN CallerDecide(T, cl) ELSE [mem |-> FALSE, off |-> 0, c |-> cl]
+      P  == IF cj THEN PopRegs(T, pp) ELSE <<>>
       v0A == IF first THEN VaInitA(a) ELSE va
       vst == LET v == VaInitI(vw, sp, ce) IN
              [v EXCEPT !.okc = (v.gp = 8 * a.gp /\ (v.fp - 48) \div FpStride = a.sse), !.oko = (v.ovf = a.stk)]
       v0I == IF first THEN vst ELSE vi
       v0F == IF first THEN vst ELSE vf
       WA == WalkA(T, v0A)
-      WI == WalkI(T, v0I)
-      WF == WalkA(T, v0F)               \* psABI walker (e.g. glibc's vprintf) on the va_list chibicc built
-      d  == CallerDis(T, A.loc, C, P)
-            \cup (IF SrcLoc(WA.src, SaveRegA) # A.loc THEN {"spec-walker-vs-allocator"} ELSE {})
-            \cup (IF first /\ ~vst.okc THEN {"vastart:named-agg-or-ldouble"} ELSE {})   \* wrong gp_offset / fp_offset
-            \cup (IF first /\ ~vst.oko THEN {"vastart:named-on-stack"} ELSE {})         \* overflow_arg_area not past the named ones
-            \cup WalkDis(T, A.loc, WI, v0I, "vaarg")
-      fd == IF SrcLoc(WF.src, SaveRegI) = A.loc THEN {}
+      WI == IF ej THEN WalkI(T, v0I) ELSE [src |-> WA.src, v |-> v0I]
+      WF == IF ej /\ fj THEN WalkA(T, v0F) ELSE [src |-> WA.src, v |-> v0F]   \* psABI walker (e.g. glibc's vprintf) on chibicc's va_list
+      dC == IF cj THEN CallerDis(T, A.loc, C, P) ELSE {}
+      dE == (IF SrcLoc(WA.src, SaveRegA) # A.loc THEN {"spec-walker-vs-allocator"} ELSE {})
+            \cup (IF ~ej THEN {} ELSE
+                    (IF first /\ ~vst.okc THEN {"vastart:named-agg-or-ldouble"} ELSE {})   \* wrong gp_offset / fp_offset
+               \cup (IF first /\ ~vst.oko THEN {"vastart:named-on-stack"} ELSE {})         \* overflow_arg_area not past the named ones
+               \cup WalkDis(T, A.loc, WI, v0I, "vaarg"))
+      d  == dC \cup dE
+      fd == IF ~(ej /\ fj) \/ SrcLoc(WF.src, SaveRegI) = A.loc THEN {}
             ELSE IF ~(v0F.okc /\ v0F.oko) THEN {}                  \* va_start already wrong: reported through d
             ELSE {"vaforward:" \o T.feat}
-  IN /\ var /\ phase \in {"named", "dots"} /\ dis = {} /\ fdis = {} /\ Len(args) >= 1 /\ Len(args) < MaxLen
+      cj2 == cj /\ dC = {}
+      ej2 == ej /\ dE = {}
+      \* the probe argument on top of this transition
+      PT == TY(ProbeKind)
+      PA == APass(PT, A.a)
+      PC == CallerDecide(PT, C.c)
+      PW == WalkI(PT, WI.v)
+      probe == /\ Len(args) + 1 < MaxLen
+               /\ (cj2 => CallerDis(PT, PA.loc, PC, PopRegs(PT, Bump(pp, P))) = {})
+               /\ (ej2 => SrcLoc(PW.src, SaveRegI) = PA.loc)
+  IN /\ var /\ phase \in {"named", "dots"} /\ (cj \/ ej) /\ Len(args) >= 1 /\ Len(args) < MaxLen
      /\ k \in TailKinds
      /\ phase' = "dots"
      /\ args' = Append(args, k) /\ nfix' = (IF first THEN Len(args) ELSE nfix) /\ locs' = Append(locs, A.loc)
      /\ a' = A.a /\ cl' = C.c /\ pp' = Bump(pp, P)
      /\ va' = WA.v /\ vi' = WI.v /\ vf' = WF.v
-     /\ dis' = d /\ fdis' = fd
+     /\ cj' = cj2 /\ ej' = ej2 /\ fj' = (fj /\ fd = {})
+     /\ dis' = d /\ fdis' = fd /\ adis' = adis \cup d \cup fd
      /\ last' = [k |-> k, A |-> A.loc, caller |-> [mem |-> C.mem, off |-> C.off], pop |-> P,
                  walkA |-> WA.src, walkI |-> WI.src, walkF |-> WF.src, v0I |-> v0I, v0A |-> v0A]
      /\ UNCHANGED <<ki, ri, ret, var, ce, sp, vw>>
-     /\ EmitB(k, IF first THEN Len(args) ELSE nfix, A.loc, A.a, d, fd)
+     /\ EmitB(k, IF first THEN Len(args) ELSE nfix, A.loc, A.a, d, fd, <<cj2, ej2, fj /\ fd = {}>>, probe)
 
 -----------------------------------------------------------------------------
 (* The whole call on an explicit stack of labelled 8-byte slots (head = lowest address = top of stack):
@@ -577,11 +606,11 @@ CallOK(names, ls, rt, d0) ==
      /\ sim.al = Cardinality({i \in DOMAIN img.regs : img.regs[i].r.r = "sse"})
 
 Call ==
-  /\ phase \in {"named", "dots"} /\ dis = {} /\ fdis = {}
+  /\ phase \in {"named", "dots"} /\ cj
   /\ phase' = "called"
   /\ dis' = IF \A d0 \in 0..3 : CallOK(args, locs, TY(ret), d0) THEN {} ELSE {"call-stack-discipline"}
   /\ last' = [sim |-> CallSim(args, TY(ret), 1), img |-> AImage(args, locs, TY(ret))]
-  /\ UNCHANGED <<ki, ri, ret, var, args, nfix, locs, a, cl, pp, ce, sp, vw, va, vi, vf, fdis>>
+  /\ fdis' = {} /\ UNCHANGED <<ki, ri, ret, var, args, nfix, locs, a, cl, pp, ce, sp, vw, va, vi, vf, cj, ej, fj, adis>>
 
 Next == (\E k \in ParamKinds : PassNamed(k) \/ PassDots(k)) \/ Call
 Spec == Init /\ [][Next]_vars
@@ -591,10 +620,11 @@ Spec == Init /\ [][Next]_vars
 Agree == dis \subseteq Waived /\ fdis \subseteq Waived
 RetAgree == ri[ret].rdis \subseteq Waived
 (* while the deciders agree, their counters are the psABI's *)
-CountersAgree == dis = {} /\ phase = "named" =>
-  /\ Min2(cl.gp, GP_MAX) = a.gp /\ Min2(cl.fp, FP_MAX) = a.sse
-  /\ pp.gp = a.gp /\ pp.fp = a.sse /\ sp = pp
-  /\ Min2(ce.gp, GP_MAX) = a.gp /\ Min2(ce.fp, FP_MAX) = a.sse
+CountersAgree == phase = "named" =>
+  /\ cj => /\ Min2(cl.gp, GP_MAX) = a.gp /\ Min2(cl.fp, FP_MAX) = a.sse
+            /\ pp.gp = a.gp /\ pp.fp = a.sse
+  /\ ej => /\ Min2(ce.gp, GP_MAX) = a.gp /\ Min2(ce.fp, FP_MAX) = a.sse
+            /\ sp.gp = a.gp /\ sp.fp = a.sse
 TypeOK == a.gp \in 0..GP_MAX /\ a.sse \in 0..FP_MAX /\ pp.gp \in 0..GP_MAX /\ pp.fp \in 0..FP_MAX
 (* Level A sanity: layouts and classes of the alphabet (checked once, against values measured with gcc) *)
 ASSUME KInfo["Sfic"].size = 12 /\ KInfo["Sc3"].size = 3 /\ KInfo["Udl"].size = 16 /\ KInfo["Se"].size = 16
